@@ -575,6 +575,184 @@ def emit_choice(tree):
   return '\n\n'.join(out)
 
 
+# ---- accumulator-loop compiler: straight-line code + one `for` whose body is straight-line ------------
+#   v = []            v = f(a, b)          a, b = f(x, y)          v.append(x)
+#   for t in xs: <straight-line>           return a, b
+# `try: <one statement> except Exception as e: raise ForEachClientError(...) from e` counts as its statement.
+# Calls go to the function PARAMETERS of the generated definition; `_device_put_sharded(e, devices)` is the
+# identity on values; `block.<field>` is the parameter <field>.
+
+def _lx(e, funs):
+  if isinstance(e, ast.Name):
+    return e.id
+  if isinstance(e, ast.Attribute) and _is_name(e.value, 'block'):
+    return e.attr
+  if isinstance(e, ast.Tuple):
+    return '(' + ', '.join(_lx(x, funs) for x in e.elts) + ')'
+  if isinstance(e, ast.List) and not e.elts:
+    return '[]'
+  if isinstance(e, ast.Call) and not e.keywords:
+    f = dotted(e.func)
+    if f == '_device_put_sharded' and len(e.args) == 2 and _is_name(e.args[1], 'devices'):
+      return _lx(e.args[0], funs)
+    if f in funs:
+      return '(' + f + ' ' + ' '.join(_lx(a, funs) for a in e.args) + ')'
+  raise Unsupported('loop compiler: expression ' + _src(e)[:80])
+
+
+def _pat(t):
+  if isinstance(t, ast.Name):
+    return t.id
+  if isinstance(t, ast.Tuple) and all(isinstance(x, ast.Name) for x in t.elts):
+    return "'(" + ', '.join(x.id for x in t.elts) + ')'
+  raise Unsupported('loop compiler: target ' + _src(t))
+
+
+def _unwrap(st):
+  if isinstance(st, ast.Try):
+    if not (_reraises(st.handlers) and len(st.body) == 1 and not st.orelse and not st.finalbody):
+      raise Unsupported('loop compiler: try statement ' + _src(st)[:60])
+    return st.body[0]
+  return st
+
+
+def _assigned(stmts):
+  out = []
+  for st in map(_unwrap, stmts):
+    if isinstance(st, ast.Assign):
+      t = st.targets[0]
+      for x in (t.elts if isinstance(t, ast.Tuple) else [t]):
+        if x.id not in out:
+          out.append(x.id)
+    elif isinstance(st, ast.Expr) and isinstance(st.value, ast.Call) and isinstance(st.value.func, ast.Attribute) and \
+        st.value.func.attr == 'append':
+      if st.value.func.value.id not in out:
+        out.append(st.value.func.value.id)
+  return out
+
+
+def _lines(stmts, funs, defined, tail):
+  """Compiles statements to nested lets ending in `tail(defined)`."""
+  if not stmts:
+    return tail(defined)
+  st, rest = _unwrap(stmts[0]), stmts[1:]
+  if isinstance(st, ast.Assign) and len(st.targets) == 1:
+    names = [x.id for x in (st.targets[0].elts if isinstance(st.targets[0], ast.Tuple) else [st.targets[0]])]
+    return 'let %s := %s in\n  %s' % (_pat(st.targets[0]), _lx(st.value, funs), _lines(rest, funs, defined + names, tail))
+  if isinstance(st, ast.Expr) and isinstance(st.value, ast.Call) and isinstance(st.value.func, ast.Attribute) and \
+      st.value.func.attr == 'append' and isinstance(st.value.func.value, ast.Name) and len(st.value.args) == 1:
+    v = st.value.func.value.id
+    _need(v in defined, 'append to a defined list')
+    return 'let %s := %s ++ [%s] in\n  %s' % (v, v, _lx(st.value.args[0], funs), _lines(rest, funs, defined, tail))
+  if isinstance(st, ast.For) and not st.orelse:
+    carried = [v for v in _assigned(st.body) if v in defined]
+    _need(carried, 'a loop that updates earlier variables')
+    acc = carried[0] if len(carried) == 1 else '(' + ', '.join(carried) + ')'
+    accp = carried[0] if len(carried) == 1 else "'(" + ', '.join(carried) + ')'
+    body = _lines(list(st.body), funs, defined + [x.id for x in ast.walk(st.target) if isinstance(x, ast.Name)],
+                  lambda d: acc)
+    return ('let %s := fold_left (fun %s %s =>\n      %s) %s %s in\n  %s'
+            % (accp, accp, _pat(st.target), body.replace('\n  ', '\n      '), _lx(st.iter, funs), acc,
+               _lines(rest, funs, defined, tail)))
+  if isinstance(st, ast.Return) and not rest:
+    return _lx(st.value, funs)
+  raise Unsupported('loop compiler: statement ' + _src(st)[:80])
+
+
+def emit_gen_loops(tree):
+  out = []
+  # jit backend: run_client
+  jb = _body(find_def(tree, 'ForEachClientJitBackend.__call__'))
+  rc = _find_fdef(jb, 'run_client')
+  _need([a.arg for a in rc.args.args] == ['shared_input', 'client_batches', 'client_input'], 'run_client(shared_input, client_batches, client_input)')
+  funs = ['jit_client_init', 'jit_client_step', 'jit_client_final']
+  out.append('(* ForEachClientJitBackend.__call__.run_client, statement by statement *)\n'
+             'Definition jit_run_client_gen {Sh Cin S B R Out : Type} (jit_client_init : Sh -> Cin -> S)\n'
+             '    (jit_client_step : S -> B -> S * R) (jit_client_final : Sh -> S -> Out)\n'
+             '    (shared_input : Sh) (client_batches : list B) (client_input : Cin) : Out * list R :=\n  '
+             + _lines(_body(rc), funs, ['shared_input', 'client_batches', 'client_input'], None) + '.')
+  # debug backend: the body of the per-client loop (jit disabled; each call wrapped in try / re-raise)
+  db = _body(find_def(tree, 'ForEachClientDebugBackend.__call__'))
+  run = _body(_find_fdef(db, 'run'))
+  loop = None
+  if len(run) == 1 and isinstance(run[0], ast.With) and len(run[0].body) == 1 and isinstance(run[0].body[0], ast.For):
+    loop = run[0].body[0]
+    body, y = list(loop.body[:-1]), loop.body[-1]
+  elif len(run) == 1 and isinstance(run[0], ast.For) and len(run[0].body) == 2 and isinstance(run[0].body[0], ast.With):
+    loop = run[0]
+    body, y = list(loop.body[0].body), loop.body[1]
+  _need(loop is not None and _src(loop.target) == '(client_id, client_batches, client_input)' and _src(loop.iter) == 'clients' and
+        _src(y) == 'yield (client_id, output, step_results)', 'debug run: for client in clients: ...; yield (client_id, output, step_results)')
+  funs = ['client_init', 'client_step', 'client_final']
+  out.append('(* ForEachClientDebugBackend.__call__.run: the body of the per-client loop *)\n'
+             'Definition debug_run_client_gen {Sh Cin S B R Out : Type} (client_init : Sh -> Cin -> S)\n'
+             '    (client_step : S -> B -> S * R) (client_final : Sh -> S -> Out)\n'
+             '    (shared_input : Sh) (client_batches : list B) (client_input : Cin) : Out * list R :=\n  '
+             + _lines(body, funs, ['shared_input', 'client_batches', 'client_input'], lambda d: '(output, step_results)') + '.')
+  # pmap backend: run_block (the p_ functions are the pmapped client functions: maps over the device axis)
+  pb = _body(find_def(tree, 'ForEachClientPmapBackend.__call__'))
+  rb = _find_fdef(pb, 'run_block')
+  _need([a.arg for a in rb.args.args] == ['p_shared_input', 'block'], 'run_block(p_shared_input, block)')
+  funs = ['p_client_init', 'p_client_step', 'p_client_final']
+  out.append('(* ForEachClientPmapBackend.__call__.run_block, statement by statement *)\n'
+             'Definition pmap_run_block_gen {PSh PCin PS PB PM PR POut : Type} (p_client_init : PSh -> PCin -> PS)\n'
+             '    (p_client_step : PS -> PB -> PM -> PS * PR) (p_client_final : PSh -> PS -> POut)\n'
+             '    (p_shared_input : PSh) (client_input : PCin) (masked_batches : list (PB * PM)) : POut * list PR :=\n  '
+             + _lines(_body(rb), funs, ['p_shared_input', 'client_input', 'masked_batches'], None) + '.')
+  return '\n\n'.join(out)
+
+
+def emit_gen_choice(tree):
+  """The context manager and BackendChoice.get as state transformers on the thread's field
+  (`cur`): GENERATED from the statements, so that an edit changes the thread model."""
+  out = []
+  g = _body(find_def(tree, 'BackendChoice.get'))
+  ok = (len(g) == 2 and isinstance(g[0], ast.If) and not g[0].orelse and _src(g[0].test) == 'self.backend is None' and
+        len(g[0].body) == 1 and _src(g[0].body[0]) == 'self.backend = self.DEFAULT_BACKEND' and _src(g[1]) == 'return self.backend')
+  _need(ok, 'BackendChoice.get: if self.backend is None: self.backend = self.DEFAULT_BACKEND; return self.backend')
+  out.append('(* BackendChoice.get: (new field, returned value) *)\n'
+             'Definition choice_get (DEFAULT_BACKEND : Z) (backend : option Z) : option Z * option Z :=\n'
+             '  let backend := if (match backend with None => true | Some _ => false end) then Some DEFAULT_BACKEND else backend in\n'
+             '  (backend, backend).')
+  cm = find_def(tree, 'for_each_client_backend')
+  b = _body(cm)
+
+  def stmt(st):
+    if isinstance(st, ast.Assign) and _is_name(st.targets[0], 'old') and _src(st.value) == '_BACKEND_CHOICE.backend':
+      return 'let old := cur in'
+    if isinstance(st, ast.Expr) and isinstance(st.value, ast.Call) and dotted(st.value.func) == 'set_for_each_client_backend' and \
+        len(st.value.args) == 1 and not st.value.keywords:
+      a = st.value.args[0]
+      if _is_name(a, 'backend') or _is_name(a, 'old'):
+        return 'let cur := %s in' % a.id
+      if _is_const(a, None):
+        return 'let cur := None in'
+    raise Unsupported('context manager: statement ' + _src(st)[:80])
+
+  def is_yield(st):
+    return isinstance(st, ast.Expr) and isinstance(st.value, ast.Yield) and st.value.value is None
+  pre, post, on_exc = [], [], None
+  seq = list(b)
+  if seq and isinstance(seq[-1], ast.Try):
+    t = seq.pop()
+    _need(not t.handlers and not t.orelse and t.body and is_yield(t.body[-1]), 'try: ...; yield  finally: ...')
+    pre = seq + t.body[:-1]
+    post, on_exc = t.finalbody, True
+  else:
+    ys = [i for i, st in enumerate(seq) if is_yield(st)]
+    _need(len(ys) == 1, 'exactly one bare yield')
+    pre, post, on_exc = seq[:ys[0]], seq[ys[0] + 1:], False
+  out.append('(* for_each_client_backend: everything before the yield; (new field, saved old) *)\n'
+             'Definition ctx_enter (backend : option Z) (cur : option Z) : option Z * option Z :=\n  '
+             + '\n  '.join(stmt(st) for st in pre) + '\n  (cur, old).')
+  out.append('(* ... everything after the yield%s *)\n'
+             'Definition ctx_exit (old : option Z) (cur : option Z) : option Z :=\n  '
+             % (' (in `finally`: also runs when the block raises)' if on_exc else ' (NOT in a finally: skipped when the block raises)')
+             + '\n  '.join(stmt(st) for st in post) + ('\n  ' if post else '') + 'cur.')
+  out.append('Definition ctx_exit_on_exception : bool := %s.' % ('true' if on_exc else 'false'))
+  return '\n\n'.join(out)
+
+
 def _reraises(handlers):
   """except Exception as e: raise ForEachClientError(...) from e"""
   return (len(handlers) == 1 and len(handlers[0].body) == 1 and isinstance(handlers[0].body[0], ast.Raise) and
@@ -651,6 +829,6 @@ MODULES = {
     'Gen_for_each_client': {
         'src': SRC,
         'preamble': 'From FV Require Import Common.C02Lib.\n',
-        'items': [emit_blockify, emit_jit, emit_pmap, emit_choice, emit_loops],
+        'items': [emit_blockify, emit_jit, emit_pmap, emit_choice, emit_loops, emit_gen_loops, emit_gen_choice],
     },
 }
